@@ -404,6 +404,16 @@ def x7_shims(text, log):
         return "vx_array_prefix(&%s, %s)" % (m.group(1), m.group(2))
     text = re.sub(r"&(buffer)\[\.\.([a-z_][a-z0-9_]*)\]", arrprefix, text)
 
+    def rowsize(m):
+        log.add("X7:vx_row_size")
+        return "vx_row_size(&self.columns, self.long_string_refs)" + _nl(m.group(0))
+    text = re.sub(r"\bself\s*\.columns\s*\.iter\(\)\s*\.map\(\|col\| col\.coltype\(\)\.width\(self\.long_string_refs\)\)\s*\.sum::<u64>\(\)", rowsize, text)
+
+    def rowsinit(m):
+        log.add("X7:vx_rows_init")
+        return "vx_rows_init(%s, %s)" % (m.group(1), m.group(2)) + _nl(m.group(0))
+    text = re.sub(r"\bvec!\[\s*Vec::<ValueRef>::with_capacity\(([a-z_][a-z0-9_]*)\);\s*([a-z_][a-z0-9_]*)\s*\]", rowsinit, text)
+
     def bsearch(m):
         log.add("X7:vx_bsearch_key0")
         return "vx_bsearch_key0(%s, %s)" % (m.group(1), m.group(2))
@@ -742,6 +752,7 @@ class FnSpec:
         self.before = []
         self.after = []
         self.afterstmt = []
+        self.loopends = {}
         self.opts = []
         self.bodystart = []
         self.bodyend = []
@@ -798,6 +809,9 @@ def parse_template(tpath):
                 cur_block = cur_fn.contract
             elif d.startswith("loop "):
                 cur_block = cur_fn.loops.setdefault(int(d[5:]), [])
+            elif d.startswith("loopend "):
+                # before the closing brace of the body of the n-th loop
+                cur_block = cur_fn.loopends.setdefault(int(d[8:]), [])
             elif d.startswith("afterstmt "):
                 # after the END of the statement that contains the snippet (next `;` at nesting depth 0)
                 m = re.match(r"(?:(\d+)\s+)?`(.*)`$", d.split(" ", 1)[1].strip())
@@ -1022,6 +1036,11 @@ class Extractor:
             if lb < 0:
                 raise AnchorLost("%s: loop #%d has no body" % (ident, n))
             inserts.append((lb, blk))
+        for n, blk in fs.loopends.items():
+            if n < 1 or n > len(loops):
+                raise AnchorLost("%s: loop #%d not found (%d loops)" % (ident, n, len(loops)))
+            lb = find_body_open(body_masked, loops[n - 1].end())
+            inserts.append((match_brace(body_masked, lb), blk))
         def find_nth(snip, nth):
             k = -1
             for _ in range(nth):
